@@ -114,7 +114,7 @@ Proof.
   assert (lenN data = 1) as L.
   { apply (f_equal b2n) in E0. rewrite b2n_n2b_small in E0; [exact E0|].
     destruct Hn as [_ Hn]. apply N.le_lt_trans with 75; [exact Hn|reflexivity]. }
-  destruct data as [|d [|d2 data]]; try discriminate L. cbn [app] in Er. injection Er as _ Er. subst r.
+  destruct data as [|d [|d2 data]]; [discriminate L| |discriminate Er]. cbn [app] in Er. injection Er as _ Er. subst r.
   inversion Hr as [r E|b r Hb Hr' E|hdr' data' r Hh' Hr' E].
   destruct (push_header_first _ _ Hh') as (h0 & htl & -> & _). discriminate E.
 Qed.
